@@ -114,7 +114,10 @@ def gen_description(rng, force=None, max_images=None, type_cycle=None, hostile=T
         k = rng.choice([1, 2, 7, 10])
         near = rng.sample(["%s-disc%d.iso" % (base, k), "%s-disc0%d.iso" % (base, k), "%s-disc00%d.iso" % (base, k),
                            "%s-Disc%d.iso" % (base, k), "%s-disc%d.ISO" % (base, k), "%s_disc%d.iso" % (base, k),
-                           "%s-disc%d.iso " % (base, k), "%s-disc%d..iso" % (base, k)], rng.randint(2, 5))
+                           "%s-disc%d.iso " % (base, k), "%s-disc%d..iso" % (base, k),
+                           # spellings a path normaliser maps to one location (they are distinct paths to the library)
+                           "%s-disc%d.iso" % (base.replace("/", "//", 1), k), "%s-disc%d.iso" % (base.replace("/", "/./", 1), k),
+                           "./%s-disc%d.iso" % (base, k), "%s/../%s-disc%d.iso" % (base.split("/")[0], base, k)], rng.randint(2, 6))
         n = max(n, len(near))
     near_cell = rng.choice(cells) if cells else None
     for i in range(n):
@@ -223,7 +226,7 @@ def classes_of(D):
     norm = {}
     for im in D["images"]:
         for c in im["cells"]:
-            norm.setdefault((tuple(c), _re.sub(r"0*(\d+)", r"\1", im["attrs"]["path"]).lower().replace("_", "-").strip()), set()).add(im["attrs"]["path"])
+            norm.setdefault((tuple(c), _re.sub(r"0*(\d+)", r"\1", __import__("posixpath").normpath(im["attrs"]["path"])).lower().replace("_", "-").strip()), set()).add(im["attrs"]["path"])
     if any(len(v) > 1 for v in norm.values()):
         out.add("near-equal-paths")
     bypath = {}
